@@ -743,6 +743,75 @@ func concHistory(r *mon.Run, pool service.TransactionPool, hist int, rng *rand.R
 
 // ---------------------------------------------------------------------------
 
+// ballastHistory: a well filled pool (thousands of pending gate transactions) whose pending list is
+// read all the time by lock-free readers (GetReceived from the rpc side, PackForCast) while
+// transactions are submitted and blocks containing them are marked executed. After every
+// MarkExecuted has returned, the executed transaction must be gone from every view of the
+// pending list; the pool is otherwise idle, so a stale view would stay.
+func ballastHistory(r *mon.Run, pool service.TransactionPool, hist int, rng *rand.Rand) {
+	nBallast := 6000 + rng.Intn(6000)
+	var ballast []common.Hash
+	for i := 0; i < nBallast; i++ {
+		tx := mkTx(fmt.Sprintf("ballast%d-%d", hist, i), 50+i%7, 0, uint64(1000+i), uint64(1+i%40))
+		if ok, _ := pool.AddTransaction(tx); ok {
+			ballast = append(ballast, tx.Hash)
+		}
+	}
+	var stop int32
+	var reads int64
+	var wg sync.WaitGroup
+	for g := 0; g < 2; g++ {
+		wg.Add(1)
+		go func(g int) {
+			defer wg.Done()
+			for atomic.LoadInt32(&stop) == 0 {
+				if g == 0 {
+					pool.GetReceived()
+				} else {
+					pool.PackForCast(uint64(10), newState(map[string]uint64{}))
+				}
+				atomic.AddInt64(&reads, 1)
+			}
+		}(g)
+	}
+	rounds := 120
+	fail := func(sig, what string, round int) {
+		r.Violation(sig, what, map[string]interface{}{"part": "ballast", "history": hist, "round": round, "ballast": len(ballast)})
+	}
+	for round := 0; round < rounds; round++ {
+		tx := mkTx(fmt.Sprintf("b%d-r%d", hist, round), 3, 0, uint64(5_000_000+round), uint64(1+round%9))
+		if ok, err := pool.AddTransaction(tx); !ok {
+			fail("C17:ballast:add-rejected", fmt.Sprintf("round %d: a fresh transaction was not admitted: %v", round, err), round)
+			continue
+		}
+		time.Sleep(time.Duration(rng.Intn(300)) * time.Microsecond)
+		h, rs, _ := blockOf(uint64(100+round), []*types.Transaction{tx}, nil)
+		pool.MarkExecuted(h, rs, []*types.Transaction{tx}, nil)
+		r.Count("ballast_rounds", 1)
+		if ok, _ := pool.AddTransaction(tx); ok {
+			fail("C17:add:executed-tx-accepted", fmt.Sprintf("round %d: the executed transaction was admitted again", round), round)
+		}
+		for _, t := range pool.GetReceived() {
+			if t.Hash == tx.Hash {
+				fail("C17:ballast:executed-tx-still-listed-as-pending", fmt.Sprintf("round %d: GetReceived lists a transaction after MarkExecuted returned (%d pending)", round, len(ballast)), round)
+				break
+			}
+		}
+		for _, t := range pool.PackForCast(uint64(10), newState(map[string]uint64{})) {
+			if t.Hash == tx.Hash {
+				fail("C17:pack:executed-tx-packed", fmt.Sprintf("round %d: PackForCast returns a transaction after MarkExecuted returned (%d pending)", round, len(ballast)), round)
+				break
+			}
+		}
+	}
+	atomic.StoreInt32(&stop, 1)
+	wg.Wait()
+	r.Count("ballast_concurrent_reads", atomic.LoadInt64(&reads))
+	r.Count("ballast_histories", 1)
+	// drain for the next history
+	pool.MarkExecuted(&types.BlockHeader{}, nil, nil, ballast)
+}
+
 func child(args []string) {
 	r := mon.Start("C17")
 	part := args[0]
@@ -753,9 +822,12 @@ func child(args []string) {
 	pool := service.GetTransactionPool()
 	for h := from; h < to; h++ {
 		r.CaseBegin([]byte(fmt.Sprintf("%s history %d", part, h)))
-		if part == "seq" {
+		switch part {
+		case "seq":
 			seqHistory(r, pool, h, r.Rand("c17-seq", h))
-		} else {
+		case "ballast":
+			ballastHistory(r, pool, h, r.Rand("c17-ballast", h))
+		default:
 			concHistory(r, pool, h, r.Rand("c17-conc", h))
 		}
 	}
@@ -864,6 +936,10 @@ func main() {
 		}
 		for f := 0; f < nRace; f += perC {
 			batches = append(batches, batch{"conc", f, minInt(f+perC, nRace), true})
+		}
+		nBallast := r.Pick(4, 48)
+		for f := 0; f < nBallast; f += 2 {
+			batches = append(batches, batch{"ballast", f, minInt(f+2, nBallast), false})
 		}
 	}
 	raceBin := os.Getenv("VERIF_RACE_BIN")
